@@ -258,6 +258,14 @@ func (e *Env) localVars(st *State, fr *Frame) map[string]Val {
 			}
 		}
 	}
+	// the visited set of the map iteration in progress (for invariants of range-over-map loops: visited(k))
+	for _, v := range fr.regs {
+		if v.K == kIter && v.Iter != nil && v.Iter.Over != nil && v.Iter.Visited != "" {
+			if mp, ok := v.Iter.Over.Typ.Underlying().(*types.Map); ok {
+				vars["visitedset"] = Val{K: kTerm, Typ: mp.Key(), Sort: fmt.Sprintf("(Array %s Bool)", e.sortOfT(mp.Key())), T: v.Iter.Visited}
+			}
+		}
+	}
 	// variables that live in memory (named results with a defer, address-taken locals): their current value
 	// is the content of the cell, not whichever load of it was executed first
 	named := map[string]bool{}
